@@ -203,7 +203,7 @@ def run_case(p, cj):
     # pass 2: entangled random state, scalar counts, density matrix in reduced mode
     vecs = tomo.rand_vectors(N, (1, 2, 1)[seed % 3], rng)
     rho = tomo.rho_of(vecs)
-    sc = [tomo.vector_counts(c, vecs, N, shots=(None, 1000)[seed % 2]) for c in circs]
+    sc = [tomo.vector_counts(c, vecs, N, shots=(None, 1000, 500 + 41 * ci)[seed % 3]) for ci, c in enumerate(circs)]
     f2 = fitter(sc)
     if api == "tomography":
         ok, dm = call(f2.density_matrix, False)
